@@ -9,6 +9,7 @@ package c15
 
 import (
 	"bufio"
+	"bytes"
 	"context"
 	"encoding/json"
 	"encoding/xml"
@@ -19,6 +20,7 @@ import (
 	"os"
 	"sort"
 	"strconv"
+	"strings"
 
 	"github.com/go-openapi/runtime"
 	"github.com/go-openapi/runtime/yamlpc"
@@ -757,6 +759,25 @@ type xmlStruct struct {
 	D       *xmlInner `xml:"d"`
 }
 
+// XML documents whose elements are named like HTML void elements
+type xmlImg struct {
+	Src string `xml:"src,attr"`
+	Alt string `xml:"alt"`
+}
+type xmlFeed struct {
+	XMLName xml.Name `xml:"entry"`
+	Title   string   `xml:"title"`
+	Link    string   `xml:"link"`
+	Meta    string   `xml:"meta"`
+	Img     *xmlImg  `xml:"img"`
+	After   string   `xml:"after"`
+	Br      []string `xml:"br"`
+}
+type xmlVoidRoot struct {
+	XMLName xml.Name `xml:"br"`
+	T       string   `xml:"t"`
+}
+
 // toGo renders an abstract value as the Go value handed to the producer.
 func toGo(codec string, v val) any {
 	switch v.t {
@@ -962,6 +983,31 @@ func execRT(c *drv.Ctx, r M) bool {
 		result = func() val { return abs(out) }
 	case "xml":
 		producer, consumer = runtime.XMLProducer(), runtime.XMLConsumer()
+		if v.t == "feed" {
+			f := xmlFeed{Title: string(v.kids[0].s), Link: string(v.kids[1].s), Meta: string(v.kids[2].s),
+				After: string(v.kids[4].s), Br: strList(v.kids[5])}
+			if v.kids[3].t == "struct" {
+				f.Img = &xmlImg{Src: string(v.kids[3].kids[0].s), Alt: string(v.kids[3].kids[1].s)}
+			}
+			src = f
+			var out xmlFeed
+			dst = &out
+			result = func() val {
+				img := vNull
+				if out.Img != nil {
+					img = val{t: "struct", kids: []val{vStr(out.Img.Src), vStr(out.Img.Alt)}}
+				}
+				return val{t: "feed", kids: []val{vStr(out.Title), vStr(out.Link), vStr(out.Meta), img, vStr(out.After), absStrList(out.Br)}}
+			}
+			break
+		}
+		if v.t == "voidroot" {
+			src = xmlVoidRoot{T: string(v.kids[0].s)}
+			var out xmlVoidRoot
+			dst = &out
+			result = func() val { return val{t: "voidroot", kids: []val{vStr(out.T)}} }
+			break
+		}
 		b, err := strconv.Atoi(string(v.kids[1].s))
 		if err != nil {
 			panic(err)
@@ -1049,6 +1095,7 @@ func execSeq(c *drv.Ctx, cfg M) bool {
 	consumer := runtime.ByteStreamConsumer()
 	var holders []func() []byte // current content of the destination of step j (nil for a mutate step)
 	var pokes []func()          // the caller overwrites byte 0 of the value stored by step j
+	var srcPokes []func()       // the caller re-uses the source it gave to step j
 	for i, sv := range drv.List(cfg["hist"]) {
 		st := drv.Map(sv)
 		var err error
@@ -1065,6 +1112,37 @@ func execSeq(c *drv.Ctx, cfg M) bool {
 					}
 				}
 			}
+			// the concrete reader: a scripted stream, or one of the in-memory readers over a slice the caller owns
+			var reader io.Reader = streamkit.NewReader(sc)
+			srcPoke := func() {}
+			switch drv.Str(st["rkind"]) {
+			case "bytesbuffer":
+				src := append([]byte{}, content...)
+				buf := bytes.NewBuffer(src)
+				reader = buf
+				srcPoke = func() { // next message into the same buffer / the same slice
+					for k := range src {
+						src[k] = 119
+					}
+					buf.Reset()
+					buf.Write(bytes.Repeat([]byte{119}, len(src)))
+				}
+			case "bytesreader":
+				src := append([]byte{}, content...)
+				rd := bytes.NewReader(src)
+				reader = rd
+				srcPoke = func() {
+					for k := range src {
+						src[k] = 119
+					}
+					rd.Reset(src)
+				}
+			case "stringsreader":
+				rd := strings.NewReader(string(content))
+				reader = rd
+				srcPoke = func() { rd.Reset(strings.Repeat("w", len(content))) }
+			}
+			srcPokes = append(srcPokes, srcPoke)
 			var dst any
 			var hold func() []byte
 			poke := func() {}
@@ -1113,13 +1191,18 @@ func execSeq(c *drv.Ctx, cfg M) bool {
 						p = true
 					}
 				}()
-				err = consumer.Consume(streamkit.NewReader(sc), dst)
+				err = consumer.Consume(reader, dst)
 				return false
 			}()
 		} else {
-			pokes[drv.Int(st["target"])-1]()
+			if drv.Str(st["op"]) == "srcmutate" {
+				srcPokes[drv.Int(st["target"])-1]()
+			} else {
+				pokes[drv.Int(st["target"])-1]()
+			}
 			holders = append(holders, func() []byte { return nil })
 			pokes = append(pokes, func() {})
+			srcPokes = append(srcPokes, func() {})
 		}
 		held := make([]M, 0, len(holders))
 		for _, h := range holders {
@@ -1140,10 +1223,14 @@ var seqDsts = []string{"pbytes", "pnbytes", "anybytes", "pstring", "anystring", 
 // that the specification can apply the caller's changes to them).
 func randomSeq(rng *rand.Rand) M {
 	var hist []M
-	var byteSteps []int
+	var byteSteps, memSteps []int
 	for i, n := 0, 3+rng.Intn(10); i < n; i++ {
 		if len(byteSteps) > 0 && rng.Intn(4) == 0 {
-			hist = append(hist, M{"op": "mutate", "dst": "", "content": []int{}, "target": byteSteps[rng.Intn(len(byteSteps))]})
+			hist = append(hist, M{"op": "mutate", "dst": "", "content": []int{}, "target": byteSteps[rng.Intn(len(byteSteps))], "rkind": ""})
+			continue
+		}
+		if len(memSteps) > 0 && rng.Intn(4) == 0 {
+			hist = append(hist, M{"op": "srcmutate", "dst": "", "content": []int{}, "target": memSteps[rng.Intn(len(memSteps))], "rkind": ""})
 			continue
 		}
 		content := make([]byte, rng.Intn(65))
@@ -1155,7 +1242,11 @@ func randomSeq(rng *rand.Rand) M {
 		if dst == "pbytes" || dst == "pnbytes" || dst == "anybytes" {
 			byteSteps = append(byteSteps, i+1)
 		}
-		hist = append(hist, M{"op": "consume", "dst": dst, "content": trace.B(string(content)), "target": 0})
+		rkind := []string{"script", "bytesbuffer", "bytesbuffer", "bytesreader", "stringsreader"}[rng.Intn(5)]
+		if rkind != "script" {
+			memSteps = append(memSteps, i+1)
+		}
+		hist = append(hist, M{"op": "consume", "dst": dst, "content": trace.B(string(content)), "target": 0, "rkind": rkind})
 	}
 	return M{"kind": "seq", "cfg": M{"hist": hist}, "origin": "rand"}
 }
